@@ -191,10 +191,14 @@ contract('Sensor.__init__', props=['C19'], invariants='prove_only', fresh_self=T
          raises={'AssertionError': ('data_capacity < 1 or len(probes) == 0', {})},
          ensures=dict(STARTS_EMPTY, **ONLY_PROBE_SERIES, uses_the_given_probes_and_capacity=
                       'self._probes is probes and self._data_capacity == data_capacity and len(self._on_sense) == 0'))
+# (the series table is built before Asset.__init__ runs -- repaired late-creation defect --, so _value_history does not
+# exist yet inside this loop; its separation from the series follows from its freshness when it is allocated afterwards)
+FRESH_TABLE_CTOR = dict(FRESH_TABLE, series_fresh_and_empty=
+                        'all(fresh(self.data[q]) and len(self.data[q]) == 0 and self.data[q] is not self._last_sense and '
+                        '    self.data[q] is not self._on_sense for q in self.data)')
 loop('Sensor.__init__', 1, 'for p in self._probes',
-     dict(FRESH_TABLE, own_lists='self._probes is probes and fresh(self._on_sense) and fresh(self._last_sense) and '
-                                 'fresh(self._value_history) and self._on_sense is not self._last_sense and '
-                                 'self._value_history is not self._last_sense and self._value_history is not self._on_sense'),
+     dict(FRESH_TABLE_CTOR, own_lists='self._probes is probes and fresh(self._on_sense) and fresh(self._last_sense) and '
+                                      'self._on_sense is not self._last_sense'),
      modifies=['self.data[]'], index='k')
 
 
